@@ -1004,6 +1004,11 @@ def build_struct(target_host: str, banner: Optional['Banner'], kex: Optional['SS
         '''Returns a dictionary containing the messages in the "fail", "warn", and "info" levels for this algorithm.'''
         alg_db = SSH2_KexDB.get_db()
         alg_info = {}
+
+        # Normalize GSS key exchange names the same way the text report does (i.e.: 'gss-gex-sha1-vz8J1E9PzLr8b1K+0remTg==' => 'gss-gex-sha1-*'), otherwise they would be reported as unknown algorithms.
+        if alg_type == 'kex' and algorithm.startswith('gss-'):
+            algorithm = "%s-*" % algorithm[0:algorithm.rindex('-')]
+
         if algorithm in alg_db[alg_type]:
             alg_desc = alg_db[alg_type][algorithm]
             alg_desc_len = len(alg_desc)
